@@ -109,6 +109,33 @@ static IQ* make_fixed(Kind k) {
     default: return new QW<LockfreeSPSCRingQueue<Item, N>, true, false>(N);
     }
 }
+// The fixed forms size their slot array at compile time (SLOTS_NUM) and their index arithmetic at run time
+// (capacity). If the array is smaller than capacity() the queue writes behind itself as soon as it is filled:
+// that is reported once, under a stable key, and the execution goes on with the next capacity, because stressing
+// an object that corrupts the heap only yields arbitrary crashes.
+template <typename Q>
+static bool slots_cover_capacity(size_t& slots, size_t& cap) {
+    Q* q = new Q();
+    slots = Q::SLOTS_NUM;
+    cap = q->capacity;
+    delete q;
+    return slots >= cap;
+}
+static bool check_fixed_n1(Kind k) {
+    size_t slots = 0, cap = 0;
+    bool ok;
+    switch (k) {
+    case K_MPMC: ok = slots_cover_capacity<LockfreeMPMCRingQueue<Item, 1>>(slots, cap); break;
+    case K_MPMC8: ok = slots_cover_capacity<LockfreeMPMCRingQueue<Item, 1, uint8_t>>(slots, cap); break;
+    case K_BATCH: ok = slots_cover_capacity<LockfreeBatchMPMCRingQueue<Item, 1>>(slots, cap); break;
+    default: ok = slots_cover_capacity<LockfreeSPSCRingQueue<Item, 1>>(slots, cap); break;
+    }
+    if (!ok)
+        vh::violation(std::string("slot-array-smaller-than-capacity:") + kind_name[k],
+                      "a fixed ring queue declared with N = 1 reports capacity() 2 but owns a single slot: the second element is stored behind the object",
+                      vh::JObj().kv("template_N", 1).kv("SLOTS_NUM", (uint64_t)slots).kv("capacity", (uint64_t)cap).str());
+    return ok;
+}
 static IQ* make_queue(Kind k, bool flex, size_t c) {
     if (flex) {
         switch (k) {
@@ -393,6 +420,7 @@ int main(int argc, char** argv) {
     if (vh::is_tsan()) g_N /= 4;
     g_N /= A.shape_div();
     g_N = std::max<uint64_t>(g_N / g_P, 200);
+    if (!g_flex && creq == 1 && !check_fixed_n1(g_kind)) creq = 2;
     g_q = make_queue(g_kind, g_flex, creq);
     g_cap = g_q->capacity();
     g_kname = std::string(g_flex ? "flex-" : "") + kind_name[g_kind];
